@@ -941,8 +941,16 @@ pub fn emit_fmt(a: &Args, out: &mut Out) {
         };
         if bytes.len() > FMT_MAX { continue; }
         made += 1;
-        let d = js::guard(|| BinaryFormat::deserialize(&bytes));
-        let mut rec = json!({"ev": "Fmt", "kind": "read", "run": run, "what": what, "panic": 0, "input": js::bytes(&bytes)});
+        out.emit(fmt_read_record(run, &bytes, &what));
+    }
+}
+
+/// One `Fmt` record of kind "read": a byte string through the real binary reader, the view of what it built,
+/// and what the real writer makes of that.
+fn fmt_read_record(run: u64, bytes: &[u8], what: &[&'static str]) -> Value {
+    {
+        let d = js::guard(|| BinaryFormat::deserialize(bytes));
+        let mut rec = json!({"ev": "Fmt", "kind": "read", "run": run, "what": what, "panic": 0, "input": js::bytes(bytes)});
         match d {
             Err(()) => { rec["deser"] = json!("panic"); rec["panic"] = json!(1); rec["view"] = fmt_view_none(); rec["again"] = json!([]); rec["again_ok"] = json!(0); }
             Ok(None) => { rec["deser"] = json!("reject"); rec["view"] = fmt_view_none(); rec["again"] = json!([]); rec["again_ok"] = json!(0); }
@@ -957,7 +965,19 @@ pub fn emit_fmt(a: &Args, out: &mut Out) {
                 }
             }
         }
-        out.emit(rec);
+        rec
+    }
+}
+
+/// `lc3v replay fmt hist=<file>`: every byte string printed by MC_ObjFormat (RP configuration) through the real reader.
+pub fn replay_fmt(a: &Args, out: &mut Out) {
+    let hist = std::fs::read_to_string(a.get_str("hist", "")).expect("hist file");
+    let mut run = 0u64;
+    for line in hist.lines() {
+        if line.trim().is_empty() { continue; }
+        let b: Vec<u8> = serde_json::from_str::<Vec<u64>>(line).expect("history").iter().map(|&x| x as u8).collect();
+        run += 1;
+        out.emit(fmt_read_record(run, &b, &["enumerated"]));
     }
 }
 
